@@ -101,7 +101,8 @@ class SharedBufferAPI : public BufferAPI<ArrayT>
      { return true; }
 
     Py_ssize_t numBytes() const override
-     { return _orig.len() * atomicSize() * _orig.stride(); }
+     { return _orig.len() * FixedArrayWidth<typename ArrayT::BaseType>::value *
+              atomicSize() * _orig.stride(); }
 
     bool readOnly() const override
      { return !_orig.writable(); }
@@ -141,7 +142,8 @@ class CopyBufferAPI : public BufferAPI<ArrayT>
      { return false; }
 
     Py_ssize_t numBytes() const override
-     { return _copy.len() * atomicSize() * _copy.stride(); }
+     { return _copy.len() * FixedArrayWidth<typename ArrayT::BaseType>::value *
+              atomicSize() * _copy.stride(); }
 
     bool readOnly() const override
      { return false; }
